@@ -82,6 +82,8 @@ pub fn configs(tier: Tier) -> Vec<String> {
         v.push("lock=local,shared=0,buf=user,cap=384,payload=val,nobfs=1".to_string());
         v.push("lock=local,shared=0,buf=huge,cap=65536,payload=val,nobfs=1".to_string());
         v.push("lock=local,shared=0,buf=user70k,cap=70000,payload=val,nobfs=1".to_string());
+        // more handles per side than a 16 bit counter can count
+        v.push("lock=sync,shared=1,buf=fixed,cap=2,payload=val,handles=70000,nobfs=1".to_string());
         v.push("lock=local,shared=1,buf=huge,cap=65536,payload=val,nobfs=1".to_string());
     }
     for lock in ["local", "sync", "spin"] {
@@ -124,6 +126,15 @@ pub fn scenarios(cfg: &str) -> Vec<Vec<Ev>> {
     let e = Ev::new;
     let cap = cfg_num(cfg, "cap", 0);
     let mut v = vec![];
+    if cfg_num(cfg, "handles", 0) > 65536 {
+        // 65537 receiver handles, one dropped: the channel must stay open and keep its values; the same for senders
+        let mut s = vec![e(TRY_SEND, 0, 0), e(TRY_SEND, 0, 0)];
+        s.extend(vec![e(CLONE_RX, 0, 0); 65536]);
+        s.extend([e(DROP_RX, 0, 0), e(TRY_RECV, 0, 0)]);
+        s.extend(vec![e(CLONE_TX, 0, 0); 65536]);
+        s.extend([e(DROP_TX, 0, 0), e(TRY_SEND, 0, 0), e(TRY_RECV, 0, 0), e(TRY_RECV, 0, 0)]);
+        return vec![s];
+    }
     if cap > 100 && cfg_num(cfg, "shared", 0) == 1 {
         // fill completely, then the last receiver handle goes away: everything must be discarded at once
         let mut s = vec![e(TRY_SEND, 0, 0); cap as usize];
@@ -521,11 +532,13 @@ fn make_api<M: RawMutex + 'static, P: Payload>(cfg: &str) -> Box<dyn ChanApi<M, 
         let _ = ch;
         Box::new(BChan { owner, stream: None, cap, growing, heap })
     }
-    fn s<M: RawMutex + 'static, P: Payload, A: RingBuf<Item = P> + Send + 'static>(cap: usize, growing: bool, heap: bool) -> Box<dyn ChanApi<M, P>> {
+    // handle bags are pre-sized (their growth must not be mistaken for an allocation of the crate)
+    let hcap = cfg_num(cfg, "handles", 0) as usize + 8;
+    fn s_impl<M: RawMutex + 'static, P: Payload, A: RingBuf<Item = P> + Send + 'static>(cap: usize, growing: bool, heap: bool, hcap: usize) -> Box<dyn ChanApi<M, P>> {
         let (t, r) = generic_channel::<M, P, A>(cap);
         let chan = t.verif_channel() as *const _;
-        let mut tx = Vec::with_capacity(8);
-        let mut rx = Vec::with_capacity(8);
+        let mut tx = Vec::with_capacity(hcap);
+        let mut rx = Vec::with_capacity(hcap);
         tx.push(t);
         rx.push(r);
         Box::new(SChan { tx, rx, stream: None, chan, cap, growing, heap })
@@ -541,14 +554,14 @@ fn make_api<M: RawMutex + 'static, P: Payload>(cfg: &str) -> Box<dyn ChanApi<M, 
         (false, "user70k", _) => b::<M, P, ArrayBuf<P, crate::ds::ringbuf::Arr70000<P>>>(70000, false, false),
         (false, "fixed", c) => b::<M, P, FixedHeapBuf<P>>(c, false, c > 0),
         (false, _, c) => b::<M, P, GrowingHeapBuf<P>>(c, true, true),
-        (true, "array", 0) => s::<M, P, ArrayBuf<P, [P; 0]>>(0, false, false),
-        (true, "array", 1) => s::<M, P, ArrayBuf<P, [P; 1]>>(1, false, false),
-        (true, "array", 2) => s::<M, P, ArrayBuf<P, [P; 2]>>(2, false, false),
-        (true, "array", 3) => s::<M, P, ArrayBuf<P, [P; 3]>>(3, false, false),
-        (true, "array", _) => s::<M, P, ArrayBuf<P, [P; 5]>>(5, false, false),
-        (true, "huge", _) => s::<M, P, ArrayBuf<P, [P; 65536]>>(65536, false, false),
-        (true, "fixed", c) => s::<M, P, FixedHeapBuf<P>>(c, false, c > 0),
-        (true, _, c) => s::<M, P, GrowingHeapBuf<P>>(c, true, true),
+        (true, "array", 0) => s_impl::<M, P, ArrayBuf<P, [P; 0]>>(0, false, false, hcap),
+        (true, "array", 1) => s_impl::<M, P, ArrayBuf<P, [P; 1]>>(1, false, false, hcap),
+        (true, "array", 2) => s_impl::<M, P, ArrayBuf<P, [P; 2]>>(2, false, false, hcap),
+        (true, "array", 3) => s_impl::<M, P, ArrayBuf<P, [P; 3]>>(3, false, false, hcap),
+        (true, "array", _) => s_impl::<M, P, ArrayBuf<P, [P; 5]>>(5, false, false, hcap),
+        (true, "huge", _) => s_impl::<M, P, ArrayBuf<P, [P; 65536]>>(65536, false, false, hcap),
+        (true, "fixed", c) => s_impl::<M, P, FixedHeapBuf<P>>(c, false, c > 0, hcap),
+        (true, _, c) => s_impl::<M, P, GrowingHeapBuf<P>>(c, true, true, hcap),
     }
 }
 
@@ -599,6 +612,8 @@ pub struct MpmcCore<M: RawMutex + 'static, P: Payload> {
     view: View,
     fp: u64,
     bounded: bool,
+    /// most handles per side the generator creates (5; 70000 in the many-handles configuration)
+    max_handles: usize,
     free: u64,
 }
 
@@ -906,6 +921,7 @@ impl<M: RawMutex + 'static, P: Payload> MpmcCore<M, P> {
             view: View::default(),
             fp: 0,
             bounded,
+            max_handles: (cfg_num(cfg, "handles", 5) as usize).max(2),
             free: 0,
         };
         let mut ctx = Ctx::new();
@@ -980,21 +996,20 @@ impl<M: RawMutex + 'static, P: Payload> MpmcCore<M, P> {
             out.push(Ev::new(STREAM_CREATE, 0, 0));
         }
         if self.api().shared() {
-            let lim = if self.bounded { 2 } else { 5 };
+            let lim = if self.bounded { 2 } else { self.max_handles };
             if has_tx && self.api().n_tx() < lim {
                 out.push(Ev::new(CLONE_TX, 0, 0));
             }
             if has_rx && self.api().n_rx() < lim {
                 out.push(Ev::new(CLONE_RX, 0, 0));
             }
-            for i in 0..self.api().n_tx() {
-                if i == 0 || i + 1 == self.api().n_tx() {
-                    out.push(Ev::new(DROP_TX, i as u8, 0));
+            // the first and (index fits the event encoding) the last handle of each side can be dropped
+            for (kind, n) in [(DROP_TX, self.api().n_tx()), (DROP_RX, self.api().n_rx())] {
+                if n > 0 {
+                    out.push(Ev::new(kind, 0, 0));
                 }
-            }
-            for i in 0..self.api().n_rx() {
-                if i == 0 || i + 1 == self.api().n_rx() {
-                    out.push(Ev::new(DROP_RX, i as u8, 0));
+                if n > 1 && n <= 200 {
+                    out.push(Ev::new(kind, (n - 1) as u8, 0));
                 }
             }
         }
